@@ -1,7 +1,6 @@
 (* C04, children that are not content elements are transparent: reading a tree and reading the tree without its non-content
    children (Spec/TtmlContentSpec.v strip: their tails stay in place, appended to the preceding text) give the same result up to
-   the split of adjacent anonymous spans (same_node), for every tree, environment and parsing context - except on the one
-   shape style_after_break, where the reader model differs (Findings/C04.v).  By induction on the tree; the children loop is
+   the split of adjacent anonymous spans (same_node), for every tree, environment and parsing context.  By induction on the tree; the children loop is
    followed on both sides at once, the stripped side holding back the text that the original side has already turned into
    anonymous spans. *)
 From TT Require Import Base.Prelude Base.ImscXml Model.ImscTime Model.ImscStyles Model.ImscTiming Spec.TtmlTimingSpec Spec.TtmlContentSpec.
@@ -238,7 +237,7 @@ Lemma loop_cons proc tm vl k par db pr lg c l iend send kids anims pf nst :
   children_loop proc tm vl k par db pr lg (c :: l) iend send kids anims pf nst =
   if ekind_eqb k KRegion && is_style_elem c
   then children_loop proc tm vl k par db pr lg l iend send kids anims pf (merge_absent vl (collect tm vl (x_attrs c) []) nst)
-  else if negb par && onone send then LDone iend kids anims pf nst
+  else if negb par && onone send then children_loop proc tm vl k par db pr lg l iend send kids anims pf nst
   else if ekind_eqb k KSet then LDone iend kids anims pf nst
   else match proc (mkPctx par send pr lg (negb (ekind_eqb k KSet))) c with
        | PErr e => LErr e
@@ -265,53 +264,6 @@ Definition lres_rel (mp : bool) (a b : lres) : Prop :=
   | LErr e, LErr e' => e = e'
   | _, _ => False
   end.
-
-Definition nostyle (c : xml) : Prop := is_style_elem c = false.
-
-Lemma strip_children_nostyle keep l : Forall nostyle l -> Forall nostyle (snd (strip_children keep strip l)).
-Proof.
-  induction 1 as [|c l Hc Hl IH]; [constructor|]. cbn [strip_children].
-  destruct (strip_children keep strip l) as [pre r]. cbn [snd] in IH.
-  destruct (keep c); cbn [snd]; [|exact IH]. constructor; [|exact IH].
-  unfold nostyle. rewrite is_style_strip. exact Hc.
-Qed.
-
-Lemma break_shape_nostyle keep l : forall a, break_shape keep l a true = false -> Forall nostyle l.
-Proof.
-  induction l as [|c l IH]; intros a H; [constructor|]. cbn [break_shape] in H.
-  unfold tag_is in H. change (qname_eqb (x_tag c) T_style) with (is_style_elem c) in H.
-  destruct (is_style_elem c) eqn:Es; [discriminate|].
-  constructor; [exact Es|]. destruct (keep c); [eapply IH; exact H|]. cbn [orb] in H. eapply IH; exact H.
-Qed.
-
-(* a sequential container whose previous child never ends reads no further child: only a region goes on reading nested styles *)
-Lemma loop_break proc tm vl k db pr lg l iend kids anims pf nst :
-  ekind_eqb k KRegion = false \/ Forall nostyle l ->
-  children_loop proc tm vl k false db pr lg l iend None kids anims pf nst = LDone iend kids anims pf nst.
-Proof.
-  intro H. destruct l as [|c l]; [reflexivity|]. rewrite loop_cons.
-  assert (E : ekind_eqb k KRegion && is_style_elem c = false).
-  { destruct H as [H|H]; [rewrite H; reflexivity|]. inversion H; subst. unfold nostyle in *. rewrite H2. apply andb_false_r. }
-  rewrite E. reflexivity.
-Qed.
-
-(* a <set> in a sequential container has a definite end *)
-Lemma classify_set attrs : classify T_set attrs = Some KSet.
-Proof. reflexivity. Qed.
-
-Lemma set_end_definite ev pr lg he cur c r : x_tag c = T_set ->
-  process ev (mkPctx false (Some cur) pr lg he) c = POk r -> r_des_end r <> None.
-Proof.
-  destruct c as [tag attrs txt tail cs]. cbn [x_tag]. intros -> H. cbn [process] in H. rewrite classify_set in H.
-  cbn [ekind_eqb ekind_code Z.eqb andb] in H.
-  destruct (read_time ev (get_attr attrs A_begin)) as [eb|]; [|discriminate].
-  destruct (read_time ev (get_attr attrs A_dur)) as [ed|]; [|discriminate].
-  destruct (read_time ev (get_attr attrs A_end)) as [ee|]; [|discriminate].
-  cbn [implicit_begin pc_par pc_seq_end] in H. rewrite loop_set in H.
-  cbn [k_has_styles k_has_children k_is_mixed k_indefinite_in_par k_has_timing andb negb pc_par] in H.
-  assert (Hi : forall (i : option Q), (match txt with Some _ => i | None => i end) = i) by (intro i; destruct txt; reflexivity).
-  rewrite Hi in H. inversion H; subst r. cbn [r_des_end]. unfold desired_end. destruct ee, ed; discriminate.
-Qed.
 
 (* ---- the children loop on a list and on the list without the children that are not kept --------------------------------------------- *)
 Definition transp (ev : env) (c : xml) : Prop := forall pc, pres_rel (process ev pc c) (process ev pc (strip c)).
@@ -367,9 +319,8 @@ Section Loop.
   Qed.
 
   Lemma loop_strip l : Forall (transp ev) l ->
-    forall K texts kids' iend' send anims pf nst p a d,
+    forall K texts kids' iend' send anims pf nst p,
       kids_rel mp K kids' -> (mp = false -> texts = []) -> (mp = true -> p = otexts texts) ->
-      (ekind_eqb k KRegion && negb par = true -> break_shape keep l a d = false /\ (a = false -> send <> None)) ->
       lres_rel mp
         (children_loop (process ev) (e_to_model ev) (e_valid ev) k par db pr lg l (xs_iend texts iend') send
                        (K ++ List.map (anon_span k pr lg) texts) anims pf nst)
@@ -377,7 +328,7 @@ Section Loop.
                        (fst (flush mp k pr lg iend' kids' (oapp p (fst (strip_children keep strip l))))) send
                        (snd (flush mp k pr lg iend' kids' (oapp p (fst (strip_children keep strip l))))) anims pf nst).
   Proof.
-    induction 1 as [|c l Hc Hl IH]; intros K texts kids' iend' send anims pf nst p a d HK Ht Hp Htr.
+    induction 1 as [|c l Hc Hl IH]; intros K texts kids' iend' send anims pf nst p HK Ht Hp.
     - cbn [strip_children fst snd children_loop]. rewrite oapp_none_r.
       destruct (flush_rel K kids' texts p iend' HK Ht Hp) as [F1 F2]. cbn [lres_rel]. rewrite F1. repeat split; try reflexivity. exact F2.
     - cbn [strip_children]. destruct (strip_children keep strip l) as [pre r] eqn:Es. cbn [fst snd] in IH.
@@ -390,27 +341,15 @@ Section Loop.
         assert (Hmpf : mp = false). { rewrite <- Hmp. destruct k; try discriminate; reflexivity. }
         pose proof (Ht Hmpf) as Hte; subst texts. rewrite loop_cons. rewrite is_style_strip, Ek, Es'. cbn [andb].
         rewrite set_tail_attrs, strip_attrs.
-        specialize (IH K [] kids' iend' send anims pf (merge_absent (e_valid ev) (collect (e_to_model ev) (e_valid ev) (x_attrs c) []) nst) p a d HK Ht Hp).
-        revert IH. rewrite Hmpf, !flush_false. cbn [fst snd]. intro IH. apply IH.
-        intro Hrs. destruct (Htr Hrs) as [Hb Ha]. cbn [break_shape] in Hb. unfold tag_is in Hb.
-        change (qname_eqb (x_tag c) T_style) with (is_style_elem c) in Hb. rewrite Es' in Hb.
-        apply orb_false_iff in Hb as [_ Hb]. split; assumption.
+        specialize (IH K [] kids' iend' send anims pf (merge_absent (e_valid ev) (collect (e_to_model ev) (e_valid ev) (x_attrs c) []) nst) p HK Ht Hp).
+        revert IH. rewrite Hmpf, !flush_false. cbn [fst snd]. intro IH. exact IH.
       + destruct (negb par && onone send) eqn:Ebr.
-        * (* the previous child of a sequential container never ends *)
-          apply andb_true_iff in Ebr as [Ep Esn]. destruct par; [discriminate|]. destruct send; [discriminate|].
-          assert (Hmpf : mp = false). { rewrite <- Hmp. apply andb_false_r. }
-          pose proof (Ht Hmpf) as Hte; subst texts. cbn [List.map xs_iend]. rewrite app_nil_r.
-          destruct (keep c) eqn:Ekc; cbn [fst snd].
-          -- rewrite loop_cons, is_style_strip, Est. cbn [negb onone andb]. rewrite Hmpf, flush_false. cbn [fst snd lres_rel].
-             rewrite Hmpf in HK. repeat split; try reflexivity. exact HK.
-          -- rewrite loop_break.
-             ++ rewrite Hmpf, flush_false. cbn [fst snd lres_rel]. rewrite Hmpf in HK. repeat split; try reflexivity. exact HK.
-             ++ destruct (ekind_eqb k KRegion) eqn:Ekr; [right|left; reflexivity].
-                destruct (Htr eq_refl) as [Hb Ha].
-                assert (a = true) by (destruct a; [reflexivity|exfalso; apply (Ha eq_refl); reflexivity]). subst a.
-                cbn [break_shape] in Hb. unfold tag_is in Hb. change (qname_eqb (x_tag c) T_style) with (is_style_elem c) in Hb.
-                cbn [andb] in Est. rewrite Est, Ekc, orb_true_r in Hb.
-                pose proof (strip_children_nostyle keep l (break_shape_nostyle keep l true Hb)) as Hn. rewrite Es in Hn. exact Hn.
+        * (* the previous child of a sequential container never ends: the child is skipped on both sides, kept or not *)
+          assert (Hmpf : mp = false). { rewrite <- Hmp. apply andb_true_iff in Ebr as [Ep _]. destruct par; [discriminate|apply andb_false_r]. }
+          pose proof (Ht Hmpf) as Hte; subst texts.
+          specialize (IH K [] kids' iend' send anims pf nst p HK Ht Hp). revert IH. rewrite Hmpf, !flush_false. cbn [fst snd]. intro IH.
+          destruct (keep c) eqn:Ekc; cbn [fst snd]; rewrite ?flush_false; cbn [fst snd]; [|exact IH].
+          rewrite loop_cons, is_style_strip, Est, Ebr. exact IH.
         * rewrite Hks. rewrite !Hmp.
           destruct (keep c) eqn:Ekc; cbn [fst snd].
           -- (* a kept child: the stripped side first makes the anonymous span of the text it held back *)
@@ -424,11 +363,7 @@ Section Loop.
                destruct (process ev (mkPctx par send pr lg (negb false)) (strip c)) as [e'| |r1] eqn:Ep'; cbn [pres_rel] in Hrel; try contradiction.
              ++ exact Hrel.
              ++ apply process_skip_timed in Ep. congruence.
-             ++ assert (Hdef : ekind_eqb k KRegion && negb par = true -> a || negb (tag_is c T_set) = false -> r_des_end r0 <> None).
-                { intros Hrs Hn. apply andb_true_iff in Hrs as [_ Hp']. destruct par; [discriminate|].
-                  apply orb_false_iff in Hn as [_ Hn]. apply negb_false_iff in Hn. unfold tag_is in Hn. apply qname_eqb_eq in Hn.
-                  destruct send as [cur|]; [|discriminate]. eapply set_end_definite; eassumption. }
-                pose proof (upd_kids_rel _ _ _ _ F2 Hrel) as HK2.
+             ++ pose proof (upd_kids_rel _ _ _ _ F2 Hrel) as HK2.
                 destruct Hrel as (R1 & R2 & R3 & R4 & R5 & R6).
                 rewrite flush_xs0. cbn [fst snd]. unfold upd_anims. rewrite <- R5, <- R6.
                 assert (E1 : upd_iend par db (fst (flush mp k pr lg iend' kids' p)) r1 = upd_iend par db (xs_iend texts iend') r0).
@@ -436,28 +371,17 @@ Section Loop.
                 rewrite E1. rewrite <- R3.
                 apply (IH (upd_kids (K ++ List.map (anon_span k pr lg) texts) r0) (texts_after mp [] (x_tail c))
                           (upd_kids (snd (flush mp k pr lg iend' kids' p)) r1) (upd_iend par db (xs_iend texts iend') r0)
-                          (if par then send else r_des_end r0) _ _ nst (x_tail c) (a || negb (tag_is c T_set)) d HK2).
+                          (if par then send else r_des_end r0) _ _ nst (x_tail c) HK2).
                 ** intro H. unfold texts_after. rewrite H. reflexivity.
                 ** intro H. unfold texts_after. rewrite H. destruct (x_tail c); cbn [app otexts concat]; rewrite ?app_nil_r; reflexivity.
-                ** intro Hrs. destruct (Htr Hrs) as [Hb Ha]. cbn [break_shape] in Hb. unfold tag_is in Hb.
-                   change (qname_eqb (x_tag c) T_style) with (is_style_elem c) in Hb.
-                   assert (Esf : is_style_elem c = false).
-                   { apply andb_true_iff in Hrs as [Hr _]. rewrite Hr in Est. exact Est. }
-                   rewrite Esf, Ekc in Hb. split; [exact Hb|].
-                   intro Hn. pose proof (Hdef Hrs Hn) as Hd. apply andb_true_iff in Hrs as [_ Hp']. destruct par; [discriminate|]. exact Hd.
           -- (* a child that is not kept: skipped by the reader; its tail becomes an anonymous span here, and is held back there *)
              assert (Htc : timed c = false) by (rewrite Hkeep in Ekc; apply orb_false_iff in Ekc as [H _]; exact H).
              rewrite (untimed_skip ev _ c Htc). rewrite oapp_assoc. rewrite flush_xs. cbn [fst snd].
-             apply (IH K (texts_after mp texts (x_tail c)) kids' iend' send anims pf nst (oapp p (x_tail c)) a (d || a) HK).
+             apply (IH K (texts_after mp texts (x_tail c)) kids' iend' send anims pf nst (oapp p (x_tail c)) HK).
              ** intro H. unfold texts_after. rewrite H. exact (Ht H).
              ** intro H. unfold texts_after. rewrite H, (Hp H). destruct (x_tail c).
                 --- symmetry. apply otexts_snoc.
                 --- rewrite app_nil_r, oapp_none_r. reflexivity.
-             ** intro Hrs. destruct (Htr Hrs) as [Hb Ha]. cbn [break_shape] in Hb. unfold tag_is in Hb.
-                change (qname_eqb (x_tag c) T_style) with (is_style_elem c) in Hb.
-                assert (Esf : is_style_elem c = false).
-                { apply andb_true_iff in Hrs as [Hr _]. rewrite Hr in Est. exact Est. }
-                rewrite Esf, Ekc in Hb. split; assumption.
   Qed.
 End Loop.
 
@@ -480,28 +404,10 @@ Proof.
   rewrite H. destruct k; reflexivity.
 Qed.
 
-Lemma trigger_children tag attrs txt tail cs :
-  style_after_break (X tag attrs txt tail cs) = false -> Forall (fun c => style_after_break c = false) cs.
+Theorem transparent ev x : transp ev x.
 Proof.
-  cbn [style_after_break]. intro H. apply orb_false_iff in H as [_ H].
-  induction cs as [|c cs IH]; [constructor|]. apply orb_false_iff in H as [H1 H2]. constructor; [exact H1|apply IH; exact H2].
-Qed.
-
-Lemma trigger_here tag attrs txt tail cs :
-  style_after_break (X tag attrs txt tail cs) = false -> s_kind tag attrs = Some KRegion -> s_is_seq attrs = true ->
-  break_shape (keeps tag attrs) cs false false = false.
-Proof.
-  cbn [style_after_break]. intros H Hk Hs. apply orb_false_iff in H as [H _]. rewrite Hk, Hs in H. exact H.
-Qed.
-
-Theorem transparent ev x : style_after_break x = false -> transp ev x.
-Proof.
-  induction x as [tag attrs txt tail cs IHcs] using xml_ind'.
-  intros Htrig pc.
-  assert (Hcs : Forall (transp ev) cs).
-  { pose proof (trigger_children _ _ _ _ _ Htrig) as Ht. clear Htrig.
-    induction cs as [|c cs IH]; [constructor|]. inversion IHcs as [|? ? Hc1 Hc2]; subst. inversion Ht as [|? ? Ht1 Ht2]; subst.
-    constructor; [exact (Hc1 Ht1)|exact (IH Hc2 Ht2)]. }
+  induction x as [tag attrs txt tail cs Hcs] using xml_ind'.
+  intro pc.
   rewrite strip_unfold.
   pose proof (classify_s_kind tag attrs) as Hk.
   cbn [process].
@@ -543,7 +449,7 @@ Proof.
   assert (Hkeep : forall c, keeps tag attrs c = timed c || (ekind_eqb k KRegion && is_style_elem c)).
   { intro c. rewrite (keeps_content tag attrs k c Hsk). destruct k; try discriminate; cbn [ekind_eqb ekind_code Z.eqb andb]; rewrite ?orb_false_r; reflexivity. }
   pose proof (loop_strip ev k par dbegin preserve lang (keeps tag attrs) mp eq_refl Hks Hkeep cs Hcs
-                [] texts0 [] iend0 (Some 0%Q) [] false [] txt false false (kids_rel_nil mp)) as Hl.
+                [] texts0 [] iend0 (Some 0%Q) [] false [] txt (kids_rel_nil mp)) as Hl.
   rewrite Es in Hl. cbn [fst snd] in Hl.
   assert (Hl' : lres_rel mp
            (children_loop (process ev) (e_to_model ev) (e_valid ev) k par dbegin preserve lang cs (xs_iend texts0 iend0) (Some 0%Q)
@@ -553,10 +459,7 @@ Proof.
               (snd (flush mp k preserve lang iend0 [] (oapp txt pre))) [] false [])).
   { apply Hl.
     - intro H. unfold texts0. rewrite H. reflexivity.
-    - intro H. unfold texts0. rewrite H. destruct txt; cbn [otexts concat]; rewrite ?app_nil_r; reflexivity.
-    - intro Hrs. apply andb_true_iff in Hrs as [Hr Hp]. split; [|discriminate].
-      assert (k = KRegion) by (destruct k; try discriminate; reflexivity). subst k.
-      apply (trigger_here _ _ _ _ _ Htrig Hsk). rewrite s_is_seq_par. exact Hp. }
+    - intro H. unfold texts0. rewrite H. destruct txt; cbn [otexts concat]; rewrite ?app_nil_r; reflexivity. }
   clear Hl.
   destruct (children_loop (process ev) (e_to_model ev) (e_valid ev) k par dbegin preserve lang cs (xs_iend texts0 iend0) (Some 0%Q)
               ([] ++ List.map (anon_span k preserve lang) texts0) [] false []) as [iF kF aF pF nF|e];
@@ -579,15 +482,11 @@ Proof.
 Qed.
 
 (* ---- the document walk: tt, head, layout and styling read the children they know and nothing else ---------------------------------- *)
-Definition clean (c : xml) : Prop := style_after_break c = false.
-
 Lemma strip_children_of x :
   x_children (strip x) = snd (strip_children (keeps (x_tag x) (x_attrs x)) strip (x_children x)).
 Proof. destruct x as [tag attrs txt tail cs]. rewrite strip_unfold. cbn [x_tag x_attrs x_children]. destruct (strip_children _ _ cs). reflexivity. Qed.
 Lemma set_tail_children x t : x_children (set_tail x t) = x_children x.
 Proof. destruct x; reflexivity. Qed.
-Lemma clean_children x : clean x -> Forall clean (x_children x).
-Proof. destruct x as [tag attrs txt tail cs]. apply trigger_children. Qed.
 
 Definition lay_rel (a b : list mnode + Z) : Prop :=
   match a, b with inl l, inl l' => Forall2 same_node l l' | inr e, inr e' => e = e' | _, _ => False end.
@@ -605,16 +504,16 @@ Proof.
   induction 1 as [|n n' l l' Hn Hl IH]; [reflexivity|]. cbn [List.map]. rewrite IH. f_equal. destruct Hn; reflexivity.
 Qed.
 
-Lemma read_layout_strip ev pr lg keep (Hkeep : forall c, keep c = tag_is c T_region) l : Forall clean l ->
+Lemma read_layout_strip ev pr lg keep (Hkeep : forall c, keep c = tag_is c T_region) l :
   forall acc acc', Forall2 same_node acc acc' ->
     lay_rel (read_layout ev pr lg l acc) (read_layout ev pr lg (snd (strip_children keep strip l)) acc').
 Proof.
-  induction 1 as [|c l Hc Hl IH]; intros acc acc' Ha; [exact Ha|].
+  induction l as [|c l IH]; intros acc acc' Ha; [exact Ha|].
   cbn [strip_children]. destruct (strip_children keep strip l) as [pre r]. cbn [snd] in IH.
   rewrite Hkeep. unfold tag_is. cbn [read_layout].
   destruct (qname_eqb (x_tag c) T_region) eqn:E; cbn [snd]; [|apply IH; exact Ha].
   cbn [read_layout]. rewrite set_tail_tag, strip_tag, E, process_set_tail.
-  pose proof (transparent ev c Hc (mkPctx true (Some 0%Q) pr lg true)) as Hr.
+  pose proof (transparent ev c (mkPctx true (Some 0%Q) pr lg true)) as Hr.
   destruct (process ev (mkPctx true (Some 0%Q) pr lg true) c) as [e| |r0];
     destruct (process ev (mkPctx true (Some 0%Q) pr lg true) (strip c)) as [e'| |r1]; cbn [pres_rel] in Hr; try contradiction.
   - exact Hr.
@@ -647,10 +546,10 @@ Lemma keeps_tt attrs c : keeps T_tt attrs c = tag_is c T_head || tag_is c T_body
 Proof. reflexivity. Qed.
 
 Lemma read_head_strip tr fr tm vl pr lg keep (Hkeep : forall c, keep c = tag_is c T_layout || tag_is c T_styling) l :
-  Forall clean l -> forall h h', hrel h h' ->
+  forall h h', hrel h h' ->
     hres_rel (read_head tr fr tm vl pr lg l h) (read_head tr fr tm vl pr lg (snd (strip_children keep strip l)) h').
 Proof.
-  induction 1 as [|c l Hc Hl IH]; intros h h' Hh; [exact Hh|].
+  induction l as [|c l IH]; intros h h' Hh; [exact Hh|].
   cbn [strip_children]. destruct (strip_children keep strip l) as [pre r]. cbn [snd] in IH.
   rewrite Hkeep. unfold tag_is. cbn [read_head].
   pose proof Hh as (H1 & H2 & H3 & H4 & H5).
@@ -659,7 +558,7 @@ Proof.
     destruct (h_layout h); [apply IH; exact Hh|].
     apply qname_eqb_eq in E1. rewrite E1.
     pose proof (read_layout_strip (mkEnv tr fr [] tm vl (h_styles h)) (read_space (x_attrs c) pr) (read_lang (x_attrs c) lg)
-                  (keeps T_layout (x_attrs c)) (keeps_layout (x_attrs c)) (x_children c) (clean_children c Hc) [] [] (Forall2_nil _)) as Hl'.
+                  (keeps T_layout (x_attrs c)) (keeps_layout (x_attrs c)) (x_children c) [] [] (Forall2_nil _)) as Hl'.
     destruct (read_layout _ _ _ (x_children c) []) as [rs|e];
       destruct (read_layout _ _ _ (snd (strip_children _ strip (x_children c))) []) as [rs'|e']; cbn [lay_rel] in Hl'; try contradiction; [|exact Hl'].
     apply IH. unfold hrel. cbn [h_layout h_styling h_regions h_styles h_initials]. repeat split; try assumption.
@@ -673,11 +572,11 @@ Proof.
 Qed.
 
 Lemma read_tt_children_strip tr fr tm vl pr lg keep (Hkeep : forall c, keep c = tag_is c T_head || tag_is c T_body) l :
-  Forall clean l -> forall hb hh h h' body body', hrel h h' -> onode_rel body body' ->
+  forall hb hh h h' body body', hrel h h' -> onode_rel body body' ->
     dres_rel (read_tt_children tr fr tm vl pr lg l hb hh h body)
              (read_tt_children tr fr tm vl pr lg (snd (strip_children keep strip l)) hb hh h' body').
 Proof.
-  induction 1 as [|c l Hc Hl IH]; intros hb hh h h' body body' Hh Hb.
+  induction l as [|c l IH]; intros hb hh h h' body body' Hh Hb.
   - cbn [strip_children snd read_tt_children dres_rel d_lang d_regions d_body d_initials].
     destruct Hh as (H1 & H2 & H3 & H4 & H5). repeat split; assumption.
   - cbn [strip_children]. destruct (strip_children keep strip l) as [pre r]. cbn [snd] in IH.
@@ -687,7 +586,7 @@ Proof.
       destruct hb; [apply IH; assumption|].
       pose proof Hh as (H1 & H2 & H3 & H4 & H5).
       rewrite <- (region_ids _ _ H3), <- H4.
-      pose proof (transparent (mkEnv tr fr (List.map region_id (h_regions h)) tm vl (h_styles h)) c Hc (mkPctx true (Some 0%Q) pr lg true)) as Hr.
+      pose proof (transparent (mkEnv tr fr (List.map region_id (h_regions h)) tm vl (h_styles h)) c (mkPctx true (Some 0%Q) pr lg true)) as Hr.
       destruct (process _ (mkPctx true (Some 0%Q) pr lg true) c) as [e| |r0];
         destruct (process _ (mkPctx true (Some 0%Q) pr lg true) (strip c)) as [e'| |r1]; cbn [pres_rel] in Hr; try contradiction.
       * exact Hr.
@@ -698,18 +597,17 @@ Proof.
       destruct hh; [apply IH; assumption|].
       apply qname_eqb_eq in E2. rewrite E2.
       pose proof (read_head_strip tr fr tm vl (read_space (x_attrs c) pr) (read_lang (x_attrs c) lg) _ (keeps_head (x_attrs c))
-                    (x_children c) (clean_children c Hc) h h' Hh) as Hd.
+                    (x_children c) h h' Hh) as Hd.
       destruct (read_head _ _ _ _ _ _ (x_children c) h) as [h1|e];
         destruct (read_head _ _ _ _ _ _ (snd (strip_children _ strip (x_children c))) h') as [h1'|e']; cbn [hres_rel] in Hd; try contradiction; [|exact Hd].
       apply IH; assumption.
 Qed.
 
 (* the whole document: a <tt> tree and the tree without the children no element reads give the same document *)
-Theorem read_tt_transparent tm vl x : x_tag x = T_tt -> style_after_break x = false ->
-  dres_rel (read_tt tm vl x) (read_tt tm vl (strip x)).
+Theorem read_tt_transparent tm vl x : x_tag x = T_tt -> dres_rel (read_tt tm vl x) (read_tt tm vl (strip x)).
 Proof.
-  intros Ht Hc. unfold read_tt. rewrite strip_attrs, strip_children_of, Ht.
-  apply (read_tt_children_strip _ _ tm vl _ _ _ (keeps_tt (x_attrs x)) (x_children x) (clean_children x Hc)).
+  intros Ht. unfold read_tt. rewrite strip_attrs, strip_children_of, Ht.
+  apply (read_tt_children_strip _ _ tm vl _ _ _ (keeps_tt (x_attrs x)) (x_children x)).
   - unfold hrel. cbn. repeat split; constructor.
   - exact I.
 Qed.
